@@ -55,6 +55,15 @@ func NewMemProvider() *MemTopics {
 	}
 }
 
+// checkSys rejects topics beginning with '$' (system topics, MQTT 3.1.1 section
+// 4.7.2). A '$' anywhere else in a topic is an ordinary character.
+func checkSys(topic []byte) error {
+	if len(topic) > 0 && topic[0] == '$' {
+		return fmt.Errorf("memtopics/nextTopicLevel: Cannot publish to $ topics")
+	}
+	return nil
+}
+
 // Subscribe implements Provider.
 func (mt *MemTopics) Subscribe(topic []byte, qos byte, sub interface{}) (byte, error) {
 	if !message.ValidQos(qos) {
@@ -72,6 +81,10 @@ func (mt *MemTopics) Subscribe(topic []byte, qos byte, sub interface{}) (byte, e
 		qos = MaxQosAllowed
 	}
 
+	if err := checkSys(topic); err != nil {
+		return message.QosFailure, err
+	}
+
 	if err := mt.sroot.sinsert(topic, qos, sub); err != nil {
 		return message.QosFailure, err
 	}
@@ -83,6 +96,10 @@ func (mt *MemTopics) Subscribe(topic []byte, qos byte, sub interface{}) (byte, e
 func (mt *MemTopics) Unsubscribe(topic []byte, sub interface{}) error {
 	mt.smu.Lock()
 	defer mt.smu.Unlock()
+
+	if err := checkSys(topic); err != nil {
+		return err
+	}
 
 	return mt.sroot.sremove(topic, sub)
 }
@@ -99,6 +116,10 @@ func (mt *MemTopics) Subscribers(topic []byte, qos byte, subs *[]interface{}, qo
 	*subs = (*subs)[0:0]
 	*qoss = (*qoss)[0:0]
 
+	if err := checkSys(topic); err != nil {
+		return err
+	}
+
 	return mt.sroot.smatch(topic, qos, subs, qoss)
 }
 
@@ -106,6 +127,10 @@ func (mt *MemTopics) Subscribers(topic []byte, qos byte, subs *[]interface{}, qo
 func (mt *MemTopics) Retain(msg *message.PublishMessage) error {
 	mt.rmu.Lock()
 	defer mt.rmu.Unlock()
+
+	if err := checkSys(msg.Topic()); err != nil {
+		return err
+	}
 
 	// So apparently, at least according to the MQTT Conformance/Interoperability
 	// Testing, that a payload of 0 means delete the retain message.
@@ -121,6 +146,10 @@ func (mt *MemTopics) Retain(msg *message.PublishMessage) error {
 func (mt *MemTopics) Retained(topic []byte, msgs *[]*message.PublishMessage) error {
 	mt.rmu.RLock()
 	defer mt.rmu.RUnlock()
+
+	if err := checkSys(topic); err != nil {
+		return err
+	}
 
 	return mt.rroot.rmatch(topic, msgs)
 }
@@ -487,17 +516,6 @@ func nextTopicLevel(topic []byte) ([]byte, []byte, error) {
 			}
 
 			s = stateSWC
-
-		case '$':
-			if i == 0 {
-				return nil, nil, fmt.Errorf("memtopics/nextTopicLevel: Cannot publish to $ topics")
-			}
-
-			if s == stateMWC || s == stateSWC {
-				return nil, nil, fmt.Errorf("memtopics/nextTopicLevel: Wildcard characters '#' and '+' must occupy entire topic level")
-			}
-
-			s = stateSYS
 
 		default:
 			if s == stateMWC || s == stateSWC {
